@@ -76,13 +76,13 @@ real_t abs(real_t v) {
 arr_real abs(const arr_cmplx& arr) {
     arr_real r(arr.size());
     for (int i = 0; i < r.size(); ++i) {
-        r[i] = std::sqrt(arr[i].re * arr[i].re + arr[i].im * arr[i].im);
+        r[i] = std::hypot(arr[i].re, arr[i].im);
     }
     return r;
 }
 
 real_t abs(cmplx_t v) {
-    return std::sqrt(v.re * v.re + v.im * v.im);
+    return std::hypot(v.re, v.im);
 }
 
 //-------------------------------------------------------------------------------------------------
